@@ -51,6 +51,7 @@ type Contract struct {
 	Ghosts     []GhostParam
 	Inline     bool
 	Split      map[int]bool
+	NoError    []string
 	Trusted    bool // contract assumed, body not verified (listed as assumption)
 	NoFrame    bool
 	Bounded    string
@@ -437,6 +438,14 @@ func parseContractFile(fset *token.FileSet, f *ast.File, pkgPath string) ([]*Con
 					return nil, nil, fmt.Errorf("%s: split <if ordinals>", ln.pos)
 				}
 				cur.Split[n] = true
+			}
+		case "noerror":
+			// noerror <callee text>, ...: the error result of these (third-party) calls is assumed nil in this function; listed
+			// as an assumption. Used for serialisation calls on values that were just decoded.
+			for _, f := range strings.Split(rest, ",") {
+				if f = strings.ReplaceAll(strings.TrimSpace(f), " ", ""); f != "" {
+					cur.NoError = append(cur.NoError, f)
+				}
 			}
 		case "noframe":
 			cur.checkFrame = false
